@@ -166,7 +166,13 @@ impl PageLockShard {
     fn try_cleanup(&self, page_id: PageId, entry: &PageLockEntry) {
         if entry.release() {
             let mut map = self.locks.lock();
-            if entry.ref_count.load(Ordering::Acquire) == 0 {
+            // Between the release above and taking the map lock another thread may have
+            // re-used and removed this entry and a third one created a fresh entry for the same
+            // page: only ever remove the entry this guard belonged to.
+            let is_current = map
+                .get(&page_id)
+                .is_some_and(|current| std::ptr::eq(Arc::as_ptr(current), entry));
+            if is_current && entry.ref_count.load(Ordering::Acquire) == 0 {
                 map.remove(&page_id);
             }
         }
